@@ -3,6 +3,7 @@
 from __future__ import annotations
 
 from copy import deepcopy
+from dataclasses import replace
 from typing import TYPE_CHECKING, Any
 
 import numpy as np
@@ -203,4 +204,20 @@ class DefaultOptimizerStep(PlanStep):
         if results is not None and not isinstance(results, FunctionResults):
             msg = "Nested optimization must return a FunctionResults object."
             raise TypeError(msg)
+        if (
+            results is not None
+            and self._transforms is not None
+            and self._transforms.variables is not None
+        ):
+            # Results are reported in the user domain, but the optimizer
+            # continues with the variables in its own domain:
+            results = replace(
+                results,
+                evaluations=replace(
+                    results.evaluations,
+                    variables=self._transforms.variables.to_optimizer(
+                        results.evaluations.variables
+                    ),
+                ),
+            )
         return results, self._nested_optimization.aborted
